@@ -200,7 +200,7 @@ func propC06(o *propOpts) *propResult {
 	if o.tier == "thorough" {
 		budget = 1500000
 	}
-	parserInputs(o, func(e *entry, s string, origin string) {
+	parserInputs(o, withPrinted(func(e *entry, s string, origin string) {
 		if budget <= 0 {
 			return
 		}
@@ -230,6 +230,6 @@ func propC06(o *propOpts) *propResult {
 			}
 			res.fail(key, s, e.name, d)
 		}
-	})
+	}))
 	return res
 }
